@@ -8,7 +8,7 @@
    exhibit, for each, a concrete input on which it did not have the property. *)
 From Coq Require Import List NArith Bool Lia.
 From AdltV Require Import Base.Res Base.MachInt Remote.Stream Remote.StreamProofs Remote.StreamSearchProofs
-  Remote.StreamSendProofs Exec.C16.
+  Remote.StreamSendProofs Remote.StreamFast Remote.StreamFastProofs Exec.C16.
 Import ListNotations.
 Open Scope N_scope.
 
@@ -82,6 +82,12 @@ Section Statements.
              stream_len s' (len all) = len (fseq all s') /\
              delivered (s_id s) (evs1 ++ ev) = firstN (e - s_to_start s) (skipN (s_to_start s) (fseq all s'))).
   Proof. exact (window_delivered part part_pos time_of index_of sort_by_time n0 ops new fin). Qed.
+
+  (* the correspondence shards evaluate [fast_run] (single-pass fetching of the messages to send, needed for
+     windows of some 100 000 messages): on every history it is [run] *)
+  Theorem C16_fast_run_is_run n0 ops :
+    fast_run part time_of index_of sort_by_time (server0 n0) ops = run (server0 n0) ops.
+  Proof. exact (fast_run_is_run part part_pos time_of index_of sort_by_time n0 ops). Qed.
 
   (* a query is finished only when its window is filled or the parser has finished and everything is processed
      (so its end marker never comes before the messages of the window that the file contains) *)
@@ -230,6 +236,18 @@ Theorem C16_before_fix_query_ended_while_parsing :
   query_done_prefix false 0 s = true /\ done_cond false 0 s = false.
 Proof. split; vm_compute; reflexivity. Qed.
 
+(* the amount sent per call is an explicit parameter of the model ([send_budget] = None: everything that is due).
+   The rule that ends a query relies on it: with any finite budget and the same rule a query served after the
+   parser has finished gets only the first [budget] messages of its window and then its end marker *)
+Theorem C16_query_end_rule_needs_unbounded_send :
+  let log := expand [(5, 1, 1)] in
+  let q := new_ctx 1 false true (cfset [(0, 1, 1)]) 0 10 in
+  (exists s' ms, tick_stream_gen part_chunk collect (Some 2) log true q = Ok (s', [FInfo 1 5 5 5; FMsgs 1 ms; FDone 1]) /\
+                 map c_index ms = [0; 1]) /\
+  (exists s' ms, tick_stream_gen part_chunk collect send_budget log true q = Ok (s', [FInfo 1 5 5 5; FMsgs 1 ms; FDone 1]) /\
+                 map c_index ms = [0; 1; 2; 3; 4]).
+Proof. cbv zeta. split; eexists _, _; (split; [vm_compute; reflexivity|vm_compute; reflexivity]). Qed.
+
 (* ---------------------------------------------------------------- non-vacuity *)
 (* a schedule with three batches, chunk sizes 1, 2 and 100, on a query with window end 2 *)
 Example C16_nonvacuous_index :
@@ -268,7 +286,9 @@ Proof. vm_compute. reflexivity. Qed.
 Print Assumptions C16_filtered_batch_independent.
 Print Assumptions C16_all_processed_after_enough_calls.
 Print Assumptions C16_window_delivered.
+Print Assumptions C16_fast_run_is_run.
 Print Assumptions C16_query_end_only_when_complete.
+Print Assumptions C16_query_end_rule_needs_unbounded_send.
 Print Assumptions C16_window_prefix_always.
 Print Assumptions C16_ids_announced_first.
 Print Assumptions C16_search_pages_partition.
